@@ -4,9 +4,9 @@ CONSTANTS
   Types = 0
   MaxEv = 12
   MaxAct = 14
-  Budget = 99
+  Budget = 9999
   NDrv = 3
-  DrvBudget = 99
+  DrvBudget = 9999
   MaxDepth = 99
   QueueCap = 50
   HardLimit = 100
